@@ -87,8 +87,17 @@ def model_splitparen(model, line, popen, pclose):
     return _pairs(r)
 
 
+# which lookup discipline of the model to compare with: "" = the model's own switch
+# (`Fp.Splitline.discipline`, the code as it is in /repo); "repaired" is used only by the
+# development-time run against a scratch tree carrying the proposed fix (FV_REPO=...).
+DISCIPLINE = ""
+
+
 def model_srm(model, line, lower):
-    r = model.ask("srm", line, "1" if lower else "0")
+    if DISCIPLINE:
+        r = model.ask("srm", line, "1" if lower else "0", DISCIPLINE)
+    else:
+        r = model.ask("srm", line, "1" if lower else "0")
     if r[0] != "ok":
         return (r[0],)
     return ("ok", r[1], r[2], _pairs(r[3:]))
@@ -458,7 +467,11 @@ def main(argv=None):
     ap.add_argument("--seed", type=int, default=0)
     ap.add_argument("--n", type=int, default=20000)
     ap.add_argument("--exe", default=None, help="path of the fpmodel driver (default: built tree)")
+    ap.add_argument("--discipline", default="", choices=["", "current", "repaired"],
+                    help="force the model's rev_string_map lookup discipline (development only)")
     a = ap.parse_args(argv)
+    global DISCIPLINE
+    DISCIPLINE = a.discipline
     model = Model(a.exe) if a.exe else get_model()
     summary, bad = run(a.seed, a.n, model)
     return 1 if bad else 0
